@@ -238,7 +238,14 @@ func (s *Sorts) TypeInv(t types.Type, v string, alloc string) string {
 			}
 		}
 		return "true"
-	case *types.Pointer, *types.Map, *types.Chan:
+	case *types.Chan:
+		// a channel object has one element type: channels of different types are different objects
+		ty := fmt.Sprintf("(=> (not (= %s 0)) (= (chan_ty %s) %d))", v, v, chanTyId(s.eng.typeName(types.NewChan(types.SendRecv, u.Elem()))))
+		if alloc != "" {
+			return and(app("<=", "0", v), app("<", v, alloc), ty)
+		}
+		return and(app("<=", "0", v), ty)
+	case *types.Pointer, *types.Map:
 		if alloc != "" {
 			return and(app("<=", "0", v), app("<", v, alloc))
 		}
@@ -303,4 +310,12 @@ func (s *Sorts) boxName(t types.Type) string {
 	s.sc.Header("box:"+name, fmt.Sprintf("(declare-fun box_%s (%s) Iface)\n(declare-fun unbox_%s (Iface) %s)\n(assert (forall ((x %s)) (! (and (= (unbox_%s (box_%s x)) x) (= (iface_tag (box_%s x)) %d)) :pattern ((box_%s x)))))",
 		name, so, name, so, so, name, name, name, h, name))
 	return name
+}
+
+func chanTyId(name string) int {
+	h := 0
+	for _, c := range name {
+		h = (h*131 + int(c)) % 1000003
+	}
+	return h
 }
